@@ -249,3 +249,20 @@ prop(
     rule="evaluations = trees; non-trivial = discovery returned >=2 files, distinct by the set of returned paths",
     tiers={"quick": {"shards": NC, "budget": 30, "min_evaluations": 1500}, "thorough": {"shards": NC, "budget": 300}},
 )
+
+prop(
+    "C12",
+    title="Explicit CLI filters are honoured under every mix of ignore-discovery flags",
+    engine="pure",
+    level="exploration",
+    level_text=("complete enumeration of the 64 subsets of {--no-vcs-ignore, --no-project-ignore, --no-global-ignore, "
+                "--no-default-ignore, --no-discover-ignore, --ignore-nothing} x {no explicit option, --ignore, --ignore-file, "
+                "--filter, --filter-file, --exts, --fs-events, all together}: the real argument pipeline and the real "
+                "WatchexecFilterer (hook H3) are built in an isolated fixture (fresh HOME / XDG_CONFIG_HOME, project with .git, "
+                ".gitignore, .ignore, global git ignore, global watchexec ignore, default-ignored paths) and probed with one event "
+                "per source. Oracle: a source-activation table written from the flags' help texts; explicit options never off"),
+    level_note="one fixture layout; git config is isolated through HOME / XDG_CONFIG_HOME / GIT_CONFIG_NOSYSTEM; the end-to-end binary is not involved here",
+    technique="exhaustive differential run of the real CLI filter construction against a source-activation table (reference-model monitor)",
+    rule="evaluations = (flag subset, explicit option set) pairs, all distinct; each judges 1-7 explicit probes and 6 single-source probes",
+    tiers={"quick": {"shards": 1, "budget": 60}, "thorough": {"shards": 1, "budget": 60}},
+)
